@@ -84,12 +84,17 @@ def run(res: Results, idx: Index, tier: str) -> None:
                         bad = True
                         res.violation("R-C19a", sp.site, f"{key0}::{p.name}::keyword", f"{sp.fq}({p.name}=…) is valid in the library; the substitute forwards it to bind() but abstract_eval{wsig.render()} has no such parameter", cls_name,
                                       original=osig.render(), substitute="(*args, **kwargs) -> bind -> abstract_eval" + wsig.render())
+            bad = _positional_hyperparameters(res, idx, sp, osig, key0, cls_name) or bad
             if not bad:
                 res.ok("R-C19a", sp.site, f"{key0}::*", f"generic forwarder; abstract_eval{wsig.render()} accepts every optional keyword of {osig.render()}", cls_name)
             continue
         wsig = sig_from_ast(sp.wrapper.args)  # type: ignore[union-attr]
         n_cmp += 1
         forms = unbound_forms(osig, wsig, sp.fq)
+        va = sp.wrapper.args.vararg.arg if sp.wrapper.args.vararg is not None else None  # type: ignore[union-attr]
+        if va and any(isinstance(c, ast.Call) and isinstance(c.func, ast.Attribute) and c.func.attr == "bind" and any(isinstance(a, ast.Starred) and isinstance(a.value, ast.Name) and a.value.id == va for a in c.args)
+                      for c in ast.walk(sp.wrapper)):
+            _positional_hyperparameters(res, idx, sp, osig, key0, cls_name)
         if not forms:
             res.ok("R-C19a", sp.site, f"{key0}::*", f"{wsig.render()} subsumes {osig.render()}", cls_name)
         for pname, form, why in forms:
@@ -223,6 +228,24 @@ def _only_deleted(w: ast.AST, nm: str) -> bool:
     """`del nm` with no other read of the name"""
     loads = [n for n in ast.walk(w) if isinstance(n, ast.Name) and n.id == nm and isinstance(n.ctx, ast.Load)]
     return not loads
+
+
+def _positional_hyperparameters(res: Results, idx: Index, sp: PatchSpec, osig: Sig, key0: str, cls_name: str) -> bool:
+    """bind(*args) makes every positional argument an OPERAND.  A library parameter that may be passed positionally and that the
+    plugin's lowering reads as a primitive PARAMETER (eqn.params["p"]) is then either ignored (the lowering falls back to its
+    default) or breaks the operand unpacking."""
+    lower_f = idx.resolve_method(sp.cls, "lower") if sp.cls is not None else None
+    if lower_f is None:
+        return False
+    bad = False
+    pkeys = {c.value for c in ast.walk(lower_f.node) if isinstance(c, ast.Constant) and isinstance(c.value, str)}
+    for i, p in enumerate(osig.params):
+        if i >= 1 and p.kind == "poskw" and p.has_default and p.name in pkeys:
+            bad = True
+            res.violation("R-C19a", sp.site, f"{key0}::{p.name}::positional-hyperparameter", f"{sp.fq}(x, <{p.name}>) is valid in the library; the substitute forwards positional arguments to bind() as operands, "
+                          f"while {cls_name}.lower reads `{p.name}` from the equation's parameters: the positional value is ignored (default used) or the operand unpacking fails", cls_name,
+                          original=osig.render(), substitute="(*args, **kwargs) -> bind(*args, **kwargs)")
+    return bad
 
 
 def _abstract_eval_sig(idx: Index, sp: PatchSpec) -> Optional[Sig]:
